@@ -496,13 +496,19 @@ def mv_ignore(ctx):
             tab['empty'] = (q['kind'] == 'forall') != q['neg']     # no stored value at all: `all` holds, `any` does not
             qatoms[key] = ('q%d' % len(qatoms), tab)
         return qatoms[key][0]
+    def qatom_e(t):
+        # a Put with an empty clock is not stored at all (MV-LIVE): the storing obligation is about Puts that carry a clock
+        if is_call(t, 'is_empty') and len(t[2]) == 1:
+            pp_ = param_path(t[2][0])
+            if pp_ and pp_[0] == 2 and pp_[1][-1:] == ('Put.clock',):
+                return 'E'
+        return qatom(t)
     Reach(facts, body, Evaluator(facts, bool_atom=qatom))
     if qatoms or qprob:
         res = {}
         for o in PARTIAL:
-            rc = Reach(facts, body, Evaluator(facts, bool_atom=qatom, assumption={n: tb[o] for n, tb in qatoms.values()}))
+            rc = Reach(facts, body, Evaluator(facts, bool_atom=qatom_e, assumption=dict({n: tb[o] for n, tb in qatoms.values()}, E=False)))
             res[o] = (pb in rc.reachable, rc.must_pass([pb]))
-        # must_pass is relative to the Put arm: compare with the arm's own reachability
         errs = list(qprob[:1])
         if not errs:
             if res[GT][0]:
@@ -510,6 +516,9 @@ def mv_ignore(ctx):
             bad = [o for o in (LT, EQ, NONE) if not res[o][0]]
             if bad:
                 errs.append('a Put that is not dominated (%s) is ignored' % bad)
+            lost = [o for o in (LT, EQ, NONE) if res[o][0] and not res[o][1]]
+            if lost and not bad:
+                errs.append('a Put that is not dominated (%s) can be dropped: a path under that case avoids the store' % lost)
             rc_e = Reach(facts, body, Evaluator(facts, bool_atom=qatom, assumption={n: tb['empty'] for n, tb in qatoms.values()}))
             if pb not in rc_e.reachable:
                 errs.append('a Put into an empty register is ignored (the scan is a universal where an existential is needed)')
